@@ -274,6 +274,24 @@ pub fn self_monitors(mon: &mut Monitor, w: &World, rig: &Rig, events: &[Ev], sna
     if ht < mon.last_htqc {
         out.oracle_fail("monotone:high_timeout_qc", "the highest timeout certificate went backwards", op.clone());
     }
+    // C05 / C11 (on_new_view): a new-view for the view the replica is already in is only processed when it comes from
+    // THE leader of that view (Schedule::view_leader of the current view, not of any earlier one)
+    if op["op"] == "msg" && mon.accepted_last {
+        if let Some(j) = op["msg"].get("newview") {
+            if let Ok(aj) = serde_json::from_value::<AJust>(j.clone()) {
+                let nv_view = match &aj {
+                    AJust::Commit(q) => q.vote.view.v.wrapping_add(1),
+                    AJust::Timeout(q) => q.view.v.wrapping_add(1),
+                };
+                if nv_view == mon.last_view && nv_view == snap.view.0 {
+                    let leader = w.schedule.index(&w.schedule.view_leader(validator::ViewNumber(nv_view)));
+                    if op["from"].as_u64().map(|x| x as usize) != leader {
+                        out.oracle_fail("newview_for_current_view_from_non_leader", &format!("a new-view for the current view {nv_view} was processed although its author is not the leader of that view"), op.clone());
+                    }
+                }
+            }
+        }
+    }
     // C05: a view change is justified by a certificate for the preceding view held by the replica
     if snap.view.0 != mon.last_view && snap.view.0 > 0 {
         let just = hc.is_some_and(|v| v.wrapping_add(1) >= snap.view.0) || ht.is_some_and(|v| v.wrapping_add(1) >= snap.view.0);
@@ -372,6 +390,26 @@ pub fn self_monitors(mon: &mut Monitor, w: &World, rig: &Rig, events: &[Ev], sna
                         }
                     }
                     v2::ChonkyMsg::ReplicaNewView(nv) => {
+                        // C05 (spec create_justification; theorems justification_is_highest / _prefers_commit_on_tie): the
+                        // new-view carries the highest certificate the replica holds, the commit certificate on a tie
+                        let (kind, jv) = match &nv.justification {
+                            v2::ProposalJustification::Commit(q) => ("commit", q.view().number.0),
+                            v2::ProposalJustification::Timeout(q) => ("timeout", q.view.number.0),
+                        };
+                        let want = match (hc, ht) {
+                            (Some(c), Some(t)) if c >= t => Some(("commit", c)),
+                            (Some(_), Some(t)) => Some(("timeout", t)),
+                            (Some(c), None) => Some(("commit", c)),
+                            (None, Some(t)) => Some(("timeout", t)),
+                            (None, None) => None,
+                        };
+                        if want != Some((kind, jv)) {
+                            out.oracle_fail(
+                                "newview_not_highest_certificate",
+                                &format!("emitted new-view is justified by a {kind} certificate of view {jv}; the replica holds commit {hc:?} / timeout {ht:?} (spec: the higher one, the commit certificate on a tie)"),
+                                op.clone(),
+                            );
+                        }
                         if nv.verify(g, e, &sched).is_err() {
                             out.oracle_fail("sent_not_self_justifying", "emitted new-view does not verify in isolation", op.clone());
                         }
@@ -806,6 +844,25 @@ impl ReplicaProp {
                                 if rng.gen_bool(0.8) { pending.push_back(json!({"op":"restart"})); }
                                 pending.push_back(p2);
                             }
+                        }
+                    }
+                }
+                // a proposal moved the replica to a later view (on_proposal is the one handler that changes the view without
+                // start_new_view): new-views for THAT view now arrive from its leader, from the previous view's leader and
+                // from somebody else — only the first may be processed
+                if self.mode != Mode::Flood && op["op"] == "msg" && op["msg"].get("proposal").is_some() && obs["class"] == "accepted" {
+                    let after = self.s.as_ref().unwrap().rig.snapshot();
+                    let now = after.view.0;
+                    if now > cur && now >= 1 && rng.gen_bool(0.7) {
+                        out.count("followup=newviews_after_view_jump_by_proposal");
+                        let hc_view = after.high_commit_qc.as_ref().map(|q| q.view().number.0);
+                        let table = self.leader_table.clone();
+                        let mut g = Gen { leader_table: &table, certified: &mut certified, rng: &mut rng, n, weights: weights.clone(), me };
+                        let just = g.just_held(now, hc_view);
+                        let mut froms = vec![g.leader(cur), g.leader(now), g.rng.gen_range(0..n)];
+                        froms.shuffle(g.rng);
+                        for from in froms {
+                            pending.push_back(json!({"op":"msg","from":from,"sig_ok":true,"msg":{"newview":just.clone()}}));
                         }
                     }
                 }
